@@ -32,8 +32,9 @@ def correspond(ctx):
     def add(mid, args, got, desc):
         cases.append((mid, args)); impl.append(got); descs.append(desc)
 
-    grid = [(1, 5), (1, 6), (2, 4), (2, 5), (3, 3), (3, 4)] if ctx.quick else \
-        [(1, n) for n in range(3, 13)] + [(2, n) for n in range(3, 11)] + [(3, n) for n in range(3, 8)]
+    # 49, 98, 103, 107: grid sizes for which N * (1 / N) != 1 in double precision (integer wavenumbers must still be exact)
+    grid = [(1, 5), (1, 6), (2, 4), (2, 5), (3, 3), (3, 4), (1, 49), (1, 98)] if ctx.quick else \
+        [(1, n) for n in range(3, 13)] + [(2, n) for n in range(3, 11)] + [(3, n) for n in range(3, 8)] + [(1, 49), (1, 98), (1, 103), (1, 107), (2, 49)]
     for D, N in grid:
         shape = (N,) * (D - 1) + (N // 2 + 1,)
         add(409, [D, N], list(sp.wavenumber_shape(D, N)), dict(fn="wavenumber_shape", D=D, N=N))
@@ -56,7 +57,9 @@ def correspond(ctx):
                     h = np.log2(N**D / v)
                     add(405, [D, N, code] + list(idx), [int(round(h))] if abs(h - round(h)) < 1e-9 else [float("nan")],
                         dict(fn="scaling", xy=xy, D=D, N=N, mode=mode, idx=list(idx)))
-        cutoffs = range(0, N // 2 + 2) if not ctx.quick else (0, 1, N // 2 - 1, N // 2, N // 2 + 1)
+        cutoffs = range(0, N // 2 + 2) if (not ctx.quick or N > 20) and D == 1 else (0, 1, N // 2 - 1, N // 2, N // 2 + 1)
+        if not ctx.quick and D > 1 and N <= 12:
+            cutoffs = range(0, N // 2 + 2)
         for cut in sorted(set(cutoffs)):
             if cut < 0:
                 continue
@@ -68,7 +71,7 @@ def correspond(ctx):
         for idx in idxs:
             add(404, [D, N] + list(idx), [int(bool(ob[(0,) + idx]))], dict(fn="oddball", D=D, N=N, idx=list(idx)))
         # mode slices: membership of every index of a larger array (len m) in each block built for grid size n
-        for M in ((N, N + 1, N + 3) if not ctx.quick else (N, N + 1)):
+        for M in ((N, N + 1, N + 3) if not ctx.quick else (N, N + 1)) if N <= 20 else ():
             sl = sp.get_modes_slices(D, N)
             big = (M,) * (D - 1) + (M // 2 + 1,)
             member = np.zeros((len(sl),) + big, dtype=bool)
@@ -218,12 +221,47 @@ def t_xy_pipeline(D, N, seed):
     return ok and ok2, f"xy pipeline: derivative consistent={ok}, make_incompressible consistent={ok2}"
 
 
-TESTS = dict(roundtrip=t_roundtrip, single_mode=t_single_mode, coef_extraction=t_coef_extraction, xy_pipeline=t_xy_pipeline)
+def t_masks(D, N):
+    """low-pass masks with integer cutoffs and the Nyquist mask select exactly the documented modes; wavenumbers are the integers"""
+    ex, jnp = _ex()
+    sp = ex.spectral
+    modes = symbols.wavenumbers(D, N)
+    wn = np.asarray(sp.build_wavenumbers(D, N))
+    for idx, k in modes:
+        if any(float(wn[(c,) + idx]) != k[c] for c in range(D)):
+            return False, f"build_wavenumbers({D},{N}){idx} = {[float(wn[(c,)+idx]) for c in range(D)]}, expected the integers {k}"
+    for cut in sorted({0, 1, N // 4, N // 2 - 1, N // 2, 11} & set(range(0, N // 2 + 1))):
+        m = np.asarray(sp.low_pass_filter_mask(D, N, cutoff=cut))[0]
+        mr = np.asarray(sp.low_pass_filter_mask(D, N, cutoff=cut, axis_separate=False))[0]
+        for idx, k in modes:
+            if bool(m[idx]) != all(abs(kc) <= cut for kc in k):
+                return False, f"low_pass_filter_mask({D},{N},cutoff={cut}) at wavenumber {k}: {bool(m[idx])}"
+            if bool(mr[idx]) != (sum(kc * kc for kc in k) <= cut * cut) and abs(sum(kc * kc for kc in k) - cut * cut) > 0:
+                return False, f"radial low_pass_filter_mask({D},{N},cutoff={cut}) at wavenumber {k}: {bool(mr[idx])}"
+    ob = np.asarray(sp.oddball_filter_mask(D, N))[0]
+    for idx, k in modes:
+        if bool(ob[idx]) != (not (N % 2 == 0 and any(abs(kc) == N // 2 for kc in k))):
+            return False, f"oddball_filter_mask({D},{N}) at wavenumber {k}: {bool(ob[idx])}"
+    for mode, (dr, do) in dict(norm_compensation=(1, 1), reconstruction=(2, 1), coef_extraction=(2, 2)).items():
+        sc = np.asarray(sp.build_scaling_array(D, N, mode=mode))[0]
+        for idx, k in modes:
+            e = 1.0
+            for c, kc in enumerate(k):
+                plain = kc == 0 or (N % 2 == 0 and abs(kc) == N // 2)
+                e *= N if plain else N / (dr if c == D - 1 else do)
+            if abs(sc[idx] - e) > 1e-9 * e:
+                return False, f"build_scaling_array({D},{N},{mode}) at wavenumber {k}: {sc[idx]} vs {e}"
+    return True, ""
+
+
+TESTS = dict(masks=t_masks, roundtrip=t_roundtrip, single_mode=t_single_mode, coef_extraction=t_coef_extraction, xy_pipeline=t_xy_pipeline)
 
 
 def witness(ctx):
     deep = ctx.deep
     dn = [(1, 6), (1, 7), (2, 4), (2, 5), (3, 3), (3, 4)] if not deep else [(1, n) for n in range(3, 12)] + [(2, n) for n in range(3, 9)] + [(3, n) for n in range(3, 7)]
+    for D, N in dn + [(1, 49), (1, 98), (1, 103), (2, 49)]:
+        ctx.check("masks", dict(D=D, N=N))
     for D, N in dn:
         ctx.check("roundtrip", dict(D=D, N=N, C=2, seed=ctx.seed))
         half = N // 2
